@@ -430,6 +430,7 @@ pub fn main(ctx: &Ctx, lines: bool) -> ! {
         }));
     }
     let simd = simd_windows(ctx, &mode, &stats, ctx.tier.pick(34, 50));
+    let forwarding = if mode.lines { crate::c03::line_forwarding(ctx) } else { (0, 0) };
     ctx.assume(&format!("lexeme alphabet of {} symbols: one representative per character class any spec state distinguishes, plus multi-character lexemes (case-insensitive keywords in both cases, the case-sensitive [CDATA[ also in wrong case, entity names, 16 x's to enter the SIMD stride); characters outside these classes are assumed to behave like their class representative", lex.len()));
     ctx.assume("state key = abstract implementation dump (token buffers reduced to min(len,2) + the predicates the code tests) x R-tok control state; every transition is validated with two closers (EOF, and \"'>-->]]> which flushes every token buffer) so merged states have verified contents");
     ctx.assume("R-tok: reference transliteration of the WHATWG tokenizer (engine/src/rtok.rs); entity table exported from python's html.entities.html5; parse errors are not compared");
@@ -453,6 +454,8 @@ pub fn main(ctx: &Ctx, lines: bool) -> ! {
             "continuations": cont_total,
             "ascii_sweep_runs": ascii_total,
             "simd_window_strings": simd,
+            "line_forwarding_runs": forwarding.0,
+            "line_forwarding_sink_calls_checked": forwarding.1,
             "configs": jobs,
             "samples": [deepest, "<a b=\n\"x\">\n", format!("{P16}\r\n<b>")],
         }),
